@@ -241,10 +241,8 @@ def function_interpolate(function, x, eps = 1e-9, start_tens = None, nswp = 20, 
             V = tn.diag(S) @ V
             UK = tn.randn((U.shape[0],kick), dtype = dtype, device = device)
             U, Rtemp = QR( tn.cat( (U,UK) , 1) )
-            radd = Rtemp.shape[1] - rnew
-            if radd>0: 
-                V =  tn.cat( (V,tn.zeros((radd,V.shape[1]), dtype = dtype, device = device)) , 0 )
-                V = Rtemp @ V
+            # [U,UK] = Q @ Rtemp, hence U = Q @ Rtemp[:,:rnew]: the factor is moved to V (also if no column was added)
+            V = Rtemp[:,:rnew] @ V
             
             # print('kkt new',tn.linalg.norm(supercore-U@V))
             # compute err (dx)
@@ -338,12 +336,9 @@ def function_interpolate(function, x, eps = 1e-9, start_tens = None, nswp = 20, 
             VK = tn.randn((kick,V.shape[1]) , dtype=dtype, device = device)
             # print('V enrich', V.shape)
             V, Rtemp = QR( tn.cat( (V,VK) , 0).t() )
-            radd = Rtemp.shape[1] - rnew
-            # print('V after QR',V.shape,Rtemp.shape,radd)
-            if radd>0:
-                U =  tn.cat( (U,tn.zeros((U.shape[0],radd), dtype = dtype, device = device)) , 1 ) 
-                U = U @ Rtemp.T
-                V = V.t()
+            # [V;VK].T = Q @ Rtemp, hence V = Rtemp[:,:rnew].T @ Q.T: the factor is moved to U (also if no row was added)
+            U = U @ Rtemp[:,:rnew].T
+            V = V.t()
             
             # print('kkt new',tn.linalg.norm(supercore-U@V))
             # compute err (dx)
@@ -532,10 +527,8 @@ def dmrg_cross(function, N, eps = 1e-9, nswp = 10, x_start = None, kick = 2, dty
             V = tn.diag(S) @ V
             UK = tn.randn((U.shape[0],kick), dtype = dtype, device = device)
             U, Rtemp = QR( tn.cat( (U,UK) , 1) )
-            radd = U.shape[1] - rnew
-            if radd>0: 
-                V =  tn.cat( (V,tn.zeros((radd,V.shape[1]), dtype = dtype, device = device)) , 0 )
-                V = Rtemp @ V
+            # [U,UK] = Q @ Rtemp, hence U = Q @ Rtemp[:,:rnew]: the factor is moved to V (also if no column was added)
+            V = Rtemp[:,:rnew] @ V
             # print('kkt new',tn.linalg.norm(supercore-U@V))
             # compute err (dx)
             super_prev = tn.einsum('ijk,kmn->ijmn',cores[k],cores[k+1])
@@ -614,11 +607,9 @@ def dmrg_cross(function, N, eps = 1e-9, nswp = 10, x_start = None, kick = 2, dty
             U = U @ tn.diag(S)
             VK = tn.randn((kick,V.shape[1]) , dtype=dtype, device = device)
             V, Rtemp = QR( tn.cat( (V,VK) , 0).t() )
-            radd = V.shape[1] - rnew
-            if radd>0:
-                U =  tn.cat( (U,tn.zeros((U.shape[0],radd), dtype = dtype, device = device)) , 1 ) 
-                U = U @ Rtemp.T
-                V = V.t()
+            # [V;VK].T = Q @ Rtemp, hence V = Rtemp[:,:rnew].T @ Q.T: the factor is moved to U (also if no row was added)
+            U = U @ Rtemp[:,:rnew].T
+            V = V.t()
             
             # print('kkt new',tn.linalg.norm(supercore-U@V))
             # compute err (dx)
